@@ -67,7 +67,7 @@ def generate(tier, seed):
         content = lines_for(dn) + (lines_for(do) if same_shape else [])
         cases.append(case("eng", spec_of(do), adapter_F(content), "-", steps))
         dist["pairs"] += 1
-    n_seq = 250 if tier == "quick" else 3000
+    n_seq = 250 if tier == "quick" else 20000
     for _ in range(n_seq):
         name = rnd.choice(names)
         d = K[name]
